@@ -465,3 +465,44 @@ def build_file_selection(sx, B):
     repeated molecule names, residues of other names inside the ranges and residues stored out of residue-id order): a residue
     carries exactly the geometric restraints and growth-direction restrictions whose ranges and names select it."""
     _c18.build_file_ranges(sx, B)
+
+
+import harness.C05 as _c05      # noqa: E402
+
+
+@condition("C07.own_restraints",
+           anchors=["polyply.src.random_walk:RandomWalk.update_positions"],
+           must_cover=["placed", "gave up"],
+           stubs=["as C05.acceptance"],
+           bounds={"quick": dict(maxiter=[0, 1, 2]), "thorough": dict(maxiter=[0, 1, 2, 3, 4])})
+def own_restraints(sx, B):
+    """'declared for it': the C05.acceptance harness (real update_positions, every predicate outcome a symbolic boolean) with
+    different declarations on each residue: the geometric-restraint and growth-direction predicates are evaluated with the
+    declarations of the residue being placed, on the trial point, measured from the residue it is grown from, and a point is
+    accepted only if both hold."""
+    _c05.acceptance(sx, B)
+
+
+@condition("C07.cycles_all_copies",
+           anchors=["polyply.src.gen_coords:_initialize_cylces", "polyply.src.top_parser:TOPDirector.finalize"],
+           rejects=(), selector_only=True, must_cover=["name on two lines"],
+           outside=["rings other than the four-residue ring"],
+           bounds={"quick": dict(), "thorough": dict()})
+def cycles_all_copies(sx, B):
+    """A molecule type declared cyclic gets its closing restraint in *every* copy, also when its name stands on more than one line
+    of [ molecules ]: real topology reader + _initialize_cylces on solver-chosen [ molecules ] lists."""
+    from harness.common import top_text, topology_from_text, moltype_text
+    layout = sx.sel("molecules", [[("RING", 1), ("SOL", 2), ("RING", 1)], [("RING", 2)], [("SOL", 1), ("RING", 1), ("SOL", 1), ("RING", 2)]])
+    if [nm for nm, _ in layout].count("RING") > 1:
+        sx.cover("name on two lines")
+    ring = moltype_text("RING", [("A", ["a1"])] * 4, bonds=[(1, 2), (2, 3), (3, 4), (4, 1)])
+    top = topology_from_text(top_text({"RING": ring, "SOL": [("S", ["s1"])]}, layout))
+    tol = sx.sel("tolerance", [0.0, 0.2])
+    gen_coords._initialize_cylces(top, ["RING"], tol)
+    for mi, mol in enumerate(top.molecules):
+        decl = dict(top.distance_restraints.get((mol.mol_name, mi), {})) if hasattr(top.distance_restraints, "get") else {}
+        if mol.mol_name == "RING":
+            sx.claim(len(decl) == 1 and list(decl.values())[0] == (0.0, tol), "every copy of the cyclic molecule type carries one closing restraint",
+                     lambda: "molecule %d of %r: %r" % (mi, layout, decl))
+        else:
+            sx.claim(not decl, "other molecules carry none")
